@@ -274,7 +274,7 @@ def judge(case, run, r1):
 
     # ---- monitor invariants ----
     for code, msg in m.violations:
-        prop = {'H1': 'C03', 'H2': 'C03', 'H3': 'C13', 'H4': 'C06', 'H5': 'C06', 'H5b': 'C06',
+        prop = {'H1': 'C03', 'H2': 'C03', 'H3a': 'C13', 'H3b': 'C13', 'H3c': 'C13', 'H3d': 'C13', 'H3e': 'C13', 'H4': 'C06', 'H5': 'C06', 'H5b': 'C06', 'H5n': 'C06',
                 'H5c': 'C06', 'H6': 'C11', 'T0': 'C06', 'T1': 'C06', 'T2': 'C06'}[code]
         out.append(F(prop, code, code, msg))
 
